@@ -53,6 +53,13 @@ def gen(rng, ctx):
                     keep.add(p)
                     st.append(p)
         cd = {"name": cd["name"], "nodes": [[n, t, n == o] for n, t, _ in cd["nodes"] if n in keep], "edges": [e for e in cd["edges"] if e[0] in keep and e[1] in keep], "bbs": {}}
+        cone_gates = [n for n, t, _ in cd["nodes"] if t in G.ALL_GATES]
+        if len(cone_gates) >= 2 and rng.random() < 0.2:
+            # logic that no output observes, hanging off the cone
+            a_, b_ = rng.sample(cone_gates, 2)
+            cd["nodes"].append(["dangle", rng.choice(["nand", "xor", "or"]), False])
+            cd["edges"] += [[a_, "dangle"], [b_, "dangle"]]
+            shape += "+dangling"
         if rng.random() < 0.25:
             # primary inputs outside the cone of the output (unused, or feeding logic that is not an output)
             cd["nodes"].append(["spare_in", "input", False])
@@ -133,6 +140,8 @@ def check(case, ctx):
     ctx.count(f"shape:{case['shape'].split('+')[0]}")
     if "hostile" in case["shape"]:
         ctx.count("hostile_helper_names")
+    if "dangling" in case["shape"]:
+        ctx.count("unobserved_gate_next_to_the_cone")
     if "spare_input" in case["shape"]:
         ctx.count("input_outside_the_output_cone")
     ctx.count(f"supercircuit:{case['supercircuit']}")
